@@ -200,6 +200,28 @@ pub fn kind_num(k: std::io::ErrorKind) -> u8 {
         _ => 99,
     }
 }
+
+/// a scripted error of kind `k`, built in one of the ways real readers build theirs — a message, a bare kind, or a
+/// WRAPPED error of another kind (layered transports: TLS over TCP, timeouts) — chosen by a running counter; the kind
+/// the caller must see is `k` in every case
+pub fn scripted_error(k: u8) -> std::io::Error {
+    use std::sync::atomic::{AtomicUsize, Ordering};
+    static SHAPE: AtomicUsize = AtomicUsize::new(0);
+    let kind = num_kind(k);
+    match SHAPE.fetch_add(1, Ordering::Relaxed) % 4 {
+        0 => std::io::Error::new(kind, "scripted"),
+        1 => std::io::Error::from(kind),
+        2 => {
+            let inner = if kind == std::io::ErrorKind::WouldBlock { std::io::ErrorKind::TimedOut } else { std::io::ErrorKind::WouldBlock };
+            std::io::Error::new(kind, std::io::Error::new(inner, "inner"))
+        }
+        _ => {
+            let inner = if kind == std::io::ErrorKind::Interrupted { std::io::ErrorKind::Other } else { std::io::ErrorKind::Interrupted };
+            std::io::Error::new(kind, std::io::Error::new(std::io::ErrorKind::Other, std::io::Error::from(inner)))
+        }
+    }
+}
+
 pub fn num_kind(k: u8) -> std::io::ErrorKind {
     use std::io::ErrorKind::*;
     match k {
@@ -303,7 +325,7 @@ impl std::io::Read for OneShot {
             self.log.push(dest.len());
             match &self.resp {
                 Resp::Panic => panic!("scripted reader panic"),
-                Resp::Err(k) => Err(std::io::Error::new(num_kind(*k), "scripted")),
+                Resp::Err(k) => Err(scripted_error(*k)),
                 Resp::Data(d, scr) => {
                     if *scr {
                         for x in dest.iter_mut() {
@@ -882,6 +904,60 @@ pub fn cof_kinds<const N: usize>(w: &mut impl std::io::Write) -> usize {
     n
 }
 
+
+/// the derived traits a copy can go through: `clone()`, `clone_from()` into a buffer in another state, plain `Copy`.
+///   TC <N> <mem> <ri> <wi> | clone | <obs of the clone>      TC ... | clone_from <mem> <ri> <wi> | <obs of the destination>
+pub fn clones<const N: usize>(w: &mut impl std::io::Write) -> usize {
+    let mut n = 0;
+    let mut states: Vec<(FixedBuf<N>, St)> = vec![];
+    for wi in 0..=N {
+        for ri in 0..=wi {
+            if ri == wi && ri > 0 {
+                continue;
+            }
+            let mut a = [0u8; N];
+            for (i, x) in a.iter_mut().enumerate() {
+                *x = b'a' + ((i * 3 + wi) % 26) as u8;
+            }
+            let mut b = FixedBuf::empty(a);
+            b.wrote(wi);
+            if ri > 0 {
+                b.read_bytes(ri);
+            }
+            if let Some(s) = observe(&b) {
+                states.push((b, s));
+            }
+        }
+    }
+    for (b, s) in &states {
+        #[allow(clippy::clone_on_copy)]
+        let c = catch_unwind(AssertUnwindSafe(|| b.clone()));
+        match c.ok().and_then(|c| observe(&c)) {
+            Some(s2) => writeln!(w, "TC {} {} | clone | {}", N, s.render_pre(), s2.render_full()).unwrap(),
+            None => writeln!(w, "TC {} {} | clone | X", N, s.render_pre()).unwrap(),
+        }
+        n += 1;
+        let c = *b;
+        match observe(&c) {
+            Some(s2) => writeln!(w, "TC {} {} | copy | {}", N, s.render_pre(), s2.render_full()).unwrap(),
+            None => writeln!(w, "TC {} {} | copy | X", N, s.render_pre()).unwrap(),
+        }
+        n += 1;
+        for (d, sd) in &states {
+            let mut d2 = *d;
+            let r = catch_unwind(AssertUnwindSafe(|| {
+                d2.clone_from(b);
+            }));
+            match r.ok().and_then(|_| observe(&d2)) {
+                Some(s2) => writeln!(w, "TC {} {} | clone_from {} | {}", N, s.render_pre(), sd.render_pre(), s2.render_full()).unwrap(),
+                None => writeln!(w, "TC {} {} | clone_from {} | X", N, s.render_pre(), sd.render_pre()).unwrap(),
+            }
+            n += 1;
+        }
+    }
+    n
+}
+
 /// long runs of the same few calls on ONE value (call counters that wrap, amortised work every so many calls)
 pub fn repeat<const N: usize>(w: &mut impl std::io::Write) -> usize {
     let patterns: Vec<Vec<Op>> = vec![
@@ -1153,6 +1229,22 @@ pub fn vectored<const N: usize>(w: &mut impl std::io::Write) -> usize {
                 match observe(&c) {
                     Some(s2) => writeln!(w, "TV {} {} | wa {} | {} | {}", N, s.render_pre(), hex(&data), out, s2.render_full()).unwrap(),
                     None => writeln!(w, "TV {} {} | wa {} | {} | X", N, s.render_pre(), hex(&data), out).unwrap(),
+                }
+                n += 1;
+            }
+            // read_to_end (the vector is the caller's: its allocation is not the library's)
+            {
+                let mut c = b;
+                let mut got: Vec<u8> = Vec::with_capacity(N + 64);
+                let r = catch_unwind(AssertUnwindSafe(|| c.read_to_end(&mut got).map_err(|e| kind_num(e.kind()))));
+                let out = match r {
+                    Ok(Ok(k)) => format!("ok {} 0 {}", k, hex(&got)),
+                    Ok(Err(e)) => format!("err{} - 0 {}", e, hex(&got)),
+                    Err(_) => format!("panic - 0 {}", hex(&got)),
+                };
+                match observe(&c) {
+                    Some(s2) => writeln!(w, "TV {} {} | rte | {} | {}", N, s.render_pre(), out, s2.render_full()).unwrap(),
+                    None => writeln!(w, "TV {} {} | rte | {} | X", N, s.render_pre(), out).unwrap(),
                 }
                 n += 1;
             }
